@@ -5,6 +5,8 @@
    Events (fixed record, see ObsKit):
      SubmitCall(f, a = timeout in ticks)   the client is about to call submit_timeout / f_timeout
      SubmitRet(f)                          ... and got the future back
+     FutureCreated(f)                      the future that will be returned has just been created (optional: seen
+                                           through the creation of its lock; tightens lo to this instant)
      CancelArrived(f, s = "outer", r)      cancel() called on the returned future by a thread of role r
                                            (r = "timeout": the executor's own worker thread)
      CancelCall(f)                         a client calls cancel() on the returned future
@@ -26,6 +28,7 @@ ObsInit == [tmo |-> EmptyMap,   \* f -> timeout
             att |-> EmptyMap,   \* f -> cancel attempts made by the timeout thread
             done |-> EmptyMap,  \* f -> time at which the future was first seen terminal
             ucan |-> {},        \* futures a client tried to cancel
+            created |-> {},     \* futures whose creation was observed
             endo |-> EmptyMap]  \* f -> <<a, b>> outcome of the underlying work
 
 IsTimeoutCancel(e) == e.ev = "CancelArrived" /\ e.s = "outer" /\ e.r = "timeout"
@@ -33,6 +36,8 @@ IsTimeoutCancel(e) == e.ev = "CancelArrived" /\ e.s = "outer" /\ e.r = "timeout"
 ObsNext(st, e) ==
   CASE e.ev = "SubmitCall" -> [st EXCEPT !.tmo = Put(@, e.f, e.a), !.lo = Put(@, e.f, e.t + e.a),
                                          !.att = Put(@, e.f, 0)]
+    [] e.ev = "FutureCreated" /\ Has(st.tmo, e.f) /\ ~Has(st.hi, e.f) /\ e.f \notin st.created ->
+          [st EXCEPT !.lo = Put(@, e.f, e.t + st.tmo[e.f]), !.created = @ \cup {e.f}]
     [] e.ev = "SubmitRet" /\ Has(st.tmo, e.f) -> [st EXCEPT !.hi = Put(@, e.f, e.t + st.tmo[e.f])]
     [] IsTimeoutCancel(e) /\ Has(st.att, e.f) -> [st EXCEPT !.att = Put(@, e.f, st.att[e.f] + 1)]
     [] e.ev = "CancelCall" -> [st EXCEPT !.ucan = @ \cup {e.f}]
